@@ -205,3 +205,30 @@ pub fn call(a: &MP, b: &MP, op: Operation) -> CallOut {
 pub fn silence_panics() {
     std::panic::set_hook(Box::new(|_| {}));
 }
+
+/// The executable used for child processes: a private copy of this binary, taken once, so that a rebuild
+/// of the engine while a check is running cannot swap the binary under a check that re-executes itself.
+pub fn child_exe() -> std::path::PathBuf {
+    static EXE: std::sync::OnceLock<std::path::PathBuf> = std::sync::OnceLock::new();
+    EXE.get_or_init(|| {
+        let me = std::env::current_exe().expect("current_exe");
+        if std::env::var("VERIF_CHILD").is_ok() {
+            return me; // a child re-executing itself keeps using the copy it was started from
+        }
+        let copy = std::path::PathBuf::from(format!("/tmp/verif-engine-child-{}", std::process::id()));
+        match std::fs::copy(&me, &copy) {
+            Ok(_) => {
+                std::env::set_var("VERIF_CHILD", "1");
+                copy
+            }
+            Err(_) => me,
+        }
+    })
+    .clone()
+}
+
+pub fn cleanup_child_exe() {
+    if std::env::var("VERIF_CHILD").is_ok() {
+        let _ = std::fs::remove_file(format!("/tmp/verif-engine-child-{}", std::process::id()));
+    }
+}
